@@ -106,8 +106,10 @@ theorem solve_vector_in_place {m n mb : Nat} {s : StateS α} {t : LU.State α m 
     solveVecS s b.toArray b.toArray = .ok (d, y.toArray) := solveVecS_ok hr b b.toArray h
 
 /-- **the `std::vector` overload**: whatever the output vector contained and however long it was,
-it ends up being the abstract result (`clear` when the lengths differ, `resize`, then every element
-assigned); exceptions as in the abstract model -/
+it ends up being the abstract result: `resize(piv_length)` keeps a prefix of the old contents or
+appends zeros, then every element is assigned (the `X.clear()` of `permuteCopy` tests the length of the
+*operand* `b` against the pivot vector, not the output, and cannot be taken: `solve` has already
+refused `b.size() != m`); exceptions as in the abstract model -/
 theorem solve_vector_on_store {m n mb : Nat} {s : StateS α} {t : LU.State α m n} (hr : Rep s t) (b : Vector α mb) (x : Array α) :
     (∀ d y, LU.solveVec t b = .ok (d, y) → solveVecS s b.toArray x = .ok (d, y.toArray)) ∧
     (∀ e, LU.solveVec t b = .error e → e ≠ .ub → solveVecS s b.toArray x = .error e) :=
